@@ -25,7 +25,9 @@ from checks import gencode_common as g
 from checks import semantics_common as sc
 from vlib import core
 
-FAMILIES = ("jsonschema", "openapi", "cue", "pipeline", "passes", "veneers")
+FAMILIES = ("jsonschema", "openapi", "cue", "pipeline", "passes", "veneers", "sequences", "parameters")
+# small families whose cases are cheap (one JSON Schema input): run completely in every tier
+DENSE = ("sequences", "parameters")
 TIMEOUT_MS = 20000
 NPROC = 12
 BUILDER_LANGS = ("go", "python", "java", "typescript", "php")
@@ -155,20 +157,20 @@ class Universe:
             open(p, "wb").write(case.get("bytes") or json.dumps(jv(case["doc"]), indent=1).encode())
             case["input"] = g.input_yaml("jsonschema", self.subst["@JS@"], "cfgt")
             case["transforms"] = "transformations:\n  schemas: ['%s']\n" % p
-        elif fam == "veneers":
+        elif fam in ("veneers", "sequences"):
             vd = os.path.join(d, "veneers")
             os.makedirs(vd)
             open(os.path.join(vd, "v.yaml"), "wb").write(case.get("bytes") or json.dumps(jv(case["doc"]), indent=1).encode())
             case["input"] = g.input_yaml("jsonschema", self.subst["@JS@"], "cfgt")
             case["transforms"] = "transformations:\n  builders: ['%s']\n" % vd
-        elif fam == "pipeline":
+        elif fam in ("pipeline", "parameters"):
             p = os.path.join(d, "pipeline.yaml")
             open(p, "wb").write(case.get("bytes") or json.dumps(self.fill(jv(case["doc"])), indent=1).encode())
             case["yaml"] = p
         return case
 
     def yaml_for(self, case, lang, alt=False):
-        if case["fam"] == "pipeline":
+        if case["fam"] in ("pipeline", "parameters"):
             return case["yaml"]
         p = os.path.join(case["dir"], "run-%s%s.yaml" % (lang or "none", "-alt" if alt else ""))
         if not os.path.exists(p):
@@ -232,14 +234,22 @@ def run_jobs(ctx, jobs, cwd, nproc=NPROC, timeout_ms=TIMEOUT_MS):
         for r in ex.map(lambda sh: _run_shard(ctx, sh, cwd, timeout_ms) if sh else {}, shards):
             res.update(r)
     # "only reported after the same input timed out twice": run timeouts a second time, alone
+    # A systematic hang would otherwise cost 20 s per affected input, twice: at most two inputs per signature are run the
+    # second time; the others are recorded as `timeout-once` (neither a regular outcome nor a violation).
     again = [j for j in jobs if res[j["id"]]["outcome"] == "timeout"]
+    confirmed = collections.Counter()
     for j in again:
+        sig = signature(res[j["id"]])[0]
+        if confirmed[sig] >= 2:
+            res[j["id"]]["outcome"] = "timeout-once"
+            continue
         r2 = _run_shard(ctx, [j], cwd, timeout_ms)[j["id"]]
         if r2["outcome"] != "timeout":
             r2["first_run_timed_out"] = True
             res[j["id"]] = r2
         else:
             res[j["id"]]["confirmed"] = True
+            confirmed[sig] += 1
     return res
 
 
@@ -383,7 +393,7 @@ def byte_mutants(rng, data, n):
 # the check
 # ----------------------------------------------------------------------------------------------
 def langs_for(case):
-    if case["fam"] == "veneers":
+    if case["fam"] in ("veneers", "sequences"):
         return BUILDER_LANGS
     return g.LANGS
 
@@ -414,11 +424,11 @@ def run(ctx):
     uni.write_fixed(bases)
     total = len(cases)
     per_fam_total = collections.Counter(c["fam"] for c in cases)
-    cases.sort(key=lambda c: (c["fam"], c["base"], json.dumps(c.get("path", c.get("e"))), c.get("mut", 0), c.get("pos", "")))
+    cases.sort(key=lambda c: (c["fam"], c["base"], json.dumps(c.get("path", c.get("e"))), c.get("mut", 0), str(c.get("pos", "")), c.get("second", 0), c.get("t", 0)))
     if quick:
         # seeded slice: every k-th case of each family, offset by the seed; the as-is documents always
         k = 12
-        cases = [c for i, c in enumerate(cases) if c["class"] == "as-is" or (i + ctx.seed) % k == 0]
+        cases = [c for i, c in enumerate(cases) if c["class"] == "as-is" or c["fam"] in DENSE or (i + ctx.seed) % k == 0]
     for i, c in enumerate(cases):
         c["cid"] = "%s-%05d" % (c["fam"], i)
         c["origin"] = "tlc"
@@ -464,14 +474,15 @@ def run(ctx):
     # ---- stage 1: parsers, consolidation, input and common transformations (no output language)
     t0 = time.time()
     by_cid = {c["cid"]: c for c in cases}
-    stage1 = [{"id": c["cid"] + "|none", "yaml": uni.yaml_for(c, None)} for c in cases if c["fam"] != "pipeline"]
-    stage1 += [{"id": c["cid"] + "|config", "yaml": c["yaml"]} for c in cases if c["fam"] == "pipeline"]
+    WHOLE = ("pipeline", "parameters")        # the case IS the pipeline configuration: one run
+    stage1 = [{"id": c["cid"] + "|none", "yaml": uni.yaml_for(c, None)} for c in cases if c["fam"] not in WHOLE]
+    stage1 += [{"id": c["cid"] + "|config", "yaml": c["yaml"]} for c in cases if c["fam"] in WHOLE]
     res = run_jobs(ctx, stage1, uni.dir)
     t1 = time.time()
     # ---- stage 2: every output language on the cases whose first stage returned
     stage2 = []
     for c in cases:
-        if c["fam"] == "pipeline":
+        if c["fam"] in WHOLE:
             continue
         if res[c["cid"] + "|none"]["outcome"] != "files":
             continue
@@ -510,7 +521,7 @@ def run(ctx):
                                                 by_cid[j.split("|")[0]].get("pos", "")) for j, _ in items)
         rp = {"family": c["fam"], "class": c["class"], "keyword": c.get("keyword"), "path": c.get("path"), "stage": stage,
               "yaml_text": open(uni.yaml_for(c, None if stage in ("none", "config") else stage.replace("-alt", ""), alt=stage.endswith("-alt"))
-                                if c["fam"] != "pipeline" else c["yaml"], errors="replace").read(),
+                                if c["fam"] not in ("pipeline", "parameters") else c["yaml"], errors="replace").read(),
               "files": case_files(c), "stack": res[jid].get("stack") or crash_info(res[jid].get("stderr", ""))[1][:30]}
         ctx.fail(sig, "%s: %s [%s stage %s; %d run(s); inputs: %s]" % (res[jid]["outcome"], str(what)[:200], c["fam"], stage, len(items),
                                                                        ", ".join("%s x%d" % kv for kv in kws.most_common(6))), rp)
@@ -545,7 +556,7 @@ def run(ctx):
     for fam in FAMILIES:
         if sum(per_fam[fam].values()) == 0:
             vac.append("family:" + fam)
-    for cls in ("absent", "ill-typed", "degenerate", "expression", "as-is", "bytes"):
+    for cls in ("absent", "ill-typed", "degenerate", "expression", "as-is", "bytes", "sequence", "environment"):
         if sum(per_class[cls].values()) == 0:
             vac.append("class:" + cls)
     for lang in g.LANGS:
